@@ -193,7 +193,14 @@ def binop_abstract(ex, op, a, b, node):
         s.len = a.len + b.len + len(a.suffix) + len(b.suffix)
         return s
     if isinstance(a, list) and isinstance(b, SymSeq) and isinstance(op, ast.Add):
-        raise Unsupported('list + symbolic sequence')
+        s = SymSeq(ex.fresh_name('+' + b.label), b.elem_factory, prov='fresh', kind=b.kind)
+        s.base = b
+        s.prefix = list(a) + list(getattr(b, 'prefix', None) or [])
+        s.suffix = list(b.suffix)
+        s.nonempty = True if a else b.nonempty
+        s.mapped = b.mapped
+        s.len = b.len + len(a)
+        return s
     st = ex.method_stubs.get('__binop__')
     if st is not None:
         return st(ex, op, a, b, node)
@@ -410,6 +417,13 @@ def contains(ex, container, item, node):
             return item in container
         except TypeError as e:
             raise SymRaise(TypeError, (str(e),), origin=ex.where(node))
+    if isinstance(container, SymDictU) and not is_abstract(item) and container.val_factory is not None:
+        known = container.__dict__.setdefault('known', {})
+        if item not in known:
+            k = ex.choose(2, f'{item!r} in {container.label}', ['present', 'absent'])
+            known[item] = ('present', container.val_factory(ex, f'{container.label}[{item!r}]')) if k == 0 else ('absent', None)
+            ex.push_undo(lambda: known.pop(item, None))
+        return known[item][0] == 'present'
     if isinstance(container, (SymSeq, SymDictU)):
         st = ex.method_stubs.get('__contains__')
         if st is not None:
@@ -794,6 +808,12 @@ def call_external(ex, f, args, kwargs, node):
         if isinstance(args[0], SymSeq):
             from . import loops
             return loops.copy_seq(ex, args[0])
+        from . import loops as _loops
+        if isinstance(args[0], _loops.DictItems):
+            di = args[0]
+            fac = {'keys': di.d.key_factory, 'values': di.d.val_factory,
+                   'items': (lambda e, l: (di.d.key_factory(e, l + '.k'), di.d.val_factory(e, l + '.v')))}[di.what]
+            return SymSeq(ex.fresh_name(f'list({di.d.label}.{di.what})'), fac, prov='fresh')
         if isinstance(args[0], SymObj) and 'list' in ex.method_stubs:
             return ex.method_stubs['list'](ex, args[0], [], {})
         r = ex.iterate_concrete(args[0], node)
